@@ -955,7 +955,9 @@ impl Melda {
                         let rt_r = rt
                             .lock()
                             .expect("failed_to_acquire_revision_tree_for_reading");
-                        let revision = rt_r.get_winner().expect("object_has_no_winner");
+                        let revision = rt_r
+                            .get_winner()
+                            .ok_or_else(|| anyhow!("object_has_no_winner"))?;
                         self.data
                             .read()
                             .expect("cannot_acquire_data_for_reading")
